@@ -39,7 +39,7 @@ def _check(assume, extra, timeout_ms):
     return UNKNOWN, dt, None
 
 
-def discharge(ob, timeout_ms=120000, stop_at_first=True, group_goals=True):
+def discharge(ob, timeout_ms=120000, stop_at_first=True, group_goals=True, case_mode=False):
     """returns list of QResult.  Queries:
        fault          : assume /\\ fault                       expect unsat
        unexpected:<e> : assume /\\ pc_e                        expect unsat
@@ -50,6 +50,10 @@ def discharge(ob, timeout_ms=120000, stop_at_first=True, group_goals=True):
     A = list(ob.assume)
     # vacuity of the precondition itself
     v, dt, m = _check(A, [], timeout_ms)
+    if case_mode and v == UNSAT:
+        # one case of an exhaustive split may be empty; vacuity is judged over the union of the cases
+        res.append(QResult('pre.satisfiable', UNSAT, v, dt))
+        return res
     res.append(QResult('pre.satisfiable', SAT, v, dt))
     if v != SAT:
         return res
@@ -67,6 +71,9 @@ def discharge(ob, timeout_ms=120000, stop_at_first=True, group_goals=True):
             return res
     for lab, (pc, goals) in ob.exits.items():
         v, dt, m = _check(A, [bb(pc)], timeout_ms)
+        if case_mode and v == UNSAT:
+            res.append(QResult(f'reach:{lab}', UNSAT, v, dt))
+            continue
         res.append(QResult(f'reach:{lab}', SAT, v, dt))
         if v != SAT:
             if stop_at_first:
